@@ -2,8 +2,6 @@ package props
 
 import (
 	"fmt"
-	"os"
-	"path/filepath"
 	"sort"
 	"sync"
 	"time"
@@ -278,10 +276,7 @@ func c10CLI(c *fw.Ctx) fw.Outcome {
 	if r.P(1, 3) {
 		f += r.I64n(1e6) // a period that is not a whole number of milliseconds: the file then holds the cuts truncated
 	}
-	in := filepath.Join(c.TmpDir(), "in.srt")
-	out := filepath.Join(c.TmpDir(), "out.srt")
-	os.WriteFile(in, []byte(simpleSRT(cs)), 0o644)
-	out = outPath(r, in, out)
+	in, out, unit, formats := cliFiles(c, r, cs)
 	key := hashCues(cs, uint64(f), 0xc10)
 	msg, err := cli("fragment", "-i", in, "-f", time.Duration(f).String(), "-o", out)
 	if err != nil {
@@ -293,7 +288,7 @@ func c10CLI(c *fw.Ctx) fw.Outcome {
 	}
 	exp := c10Spec(cs, f)
 	for k := range exp {
-		exp[k].S, exp[k].E = exp[k].S/1e6*1e6, exp[k].E/1e6*1e6 // SubRip holds milliseconds
+		exp[k].S, exp[k].E = exp[k].S/unit*unit, exp[k].E/unit*unit // the output format holds milliseconds or centiseconds
 	}
 	g := cuesOf(got.Items)
 	for k := 1; k < len(g); k++ {
@@ -304,7 +299,7 @@ func c10CLI(c *fw.Ctx) fw.Outcome {
 	sortCues(exp)
 	sortCues(g)
 	if fmtCues(exp) != fmtCues(g) {
-		return fw.Bad(key, nil, "CLI fragment -f %v on %s: got %s, specification %s", time.Duration(f), fmtCues(cs), fmtCues(g), fmtCues(exp))
+		return fw.Bad(key, nil, "CLI fragment -f %v (%s) on %s: got %s, specification %s", time.Duration(f), formats, fmtCues(cs), fmtCues(g), fmtCues(exp))
 	}
 	c.Count("cli_fragment_runs", 1)
 	return fw.OK(key, map[string]interface{}{"cli": "fragment", "f": f, "cues": fmtCues(cs)})
